@@ -6,7 +6,9 @@
 
    Adversary (address-/hash-/heap-structure-dependent) inputs, never computed by the model:
    * tie     : id(self) < id(other) inside BoundedComparator.__lt__
-   * hops    : bounds.sort — the key comparisons the Fibonacci heap performs and the items it pops.  The heap is
+   * hops    : bounds.sort — the key comparisons the Fibonacci heap performs and the items it pops.  (This
+               trace-validating model is kept for the correspondence; the heap is modelled in full in SortModel.v
+               and the ordering theorem is proved there without any heap oracle.)  Here the heap is
                abstracted as a validated oracle: a pop of item i is accepted only when the outcomes of the
                comparisons performed so far imply (by transitivity) key i <= key j for every item j still inside;
                otherwise the model answers BadTrace.
@@ -18,7 +20,8 @@
    Specialisations (stated, checked by the harness on every run): initial_bounds is the default Range(-inf, +inf),
    so `initial_bounds.lower_bound > NEGATIVE_INFINITY` is False; in tighten_bounds' `for node in list(min_node)`
    the first node (heap._min) is the one tightened - if its tighten_bounds() returns False the model answers
-   Unmodelled (impossible for sound items: every item in _untightened is non-definitive, hence not exhausted);
+   Unmodelled (impossible for sound items: every item in _untightened is non-definitive, hence not exhausted;
+   without loss of generality: see stb_body_g below, where the rest of that loop is an arbitrary continuation);
    `list(None)` on an empty _untightened heap is Crash (TypeError). *)
 From Coq Require Import List Bool ZArith Lia.
 Require Import GT.BoundsSpec GT.SearchSpec.
@@ -387,6 +390,58 @@ Fixpoint search_loop (fuel inner : nat) (s : sst) (m : ms) (rets : list bool) : 
 Definition search (fuel : nat) (m : ms) (ids : list nat) (hints : list nat)
   : outcome (option nat * range * list bool * ms) :=
   obind (search_loop fuel fuel (mkS (Some ids) [] [] hints) m []) (fun '(s, m', rets) =>
+    Done (best_match s m', sbounds s m', rets, m')).
+
+(* The same search with the remaining iterations of `for node in list(self._untightened.min_node)` left completely
+   open: `alt s m` stands for whatever the loop does (with the later nodes of the pre-order walk) after the
+   tighten_bounds() of its first node, heap._min, has returned False.  SearchProofs.C17_search_general: for sound
+   items the result is the same for every `alt`, i.e. that continuation is dead code and modelling only the first
+   node is without loss of generality. *)
+Definition stb_body_g (alt : sst -> ms -> stb_result) (k : sst -> ms -> stb_result) (start : range) (s : sst) (m : ms)
+  : stb_result :=
+  let s1 := stb_pull s m in
+  match unt s1 with
+  | [] => stb_finish k start s1 m false
+  | _ :: _ =>
+      let '(s2, m2) := if is_none (unp s1) then stb_len1 s1 m else (s1, m) in
+      if is_none (unp s1) && goal_test s2 m2 then
+        match best_match s2 m2 with
+        | Some best =>
+            let '(ret, m3) := tighten m2 best in
+            let s3 := push_item (mkS (unp s2) [] [] (hints s2)) m3 best in
+            let nb := sbounds s3 m3 in
+            Done (ret || rv_ltb (lo start) (lo nb) || rv_ltb (hi nb) (hi start), s3, m3)
+        | None => Crash
+        end
+      else
+        match unt s2 with
+        | [] => Crash
+        | (i, k0) :: _ =>
+            let '(t, m3) := tighten m2 i in
+            if t then stb_finish k start (update_bounds s2 m3 i k0) m3 true else alt s2 m3
+        end
+  end.
+
+Fixpoint stb_loop_g (alt : sst -> ms -> stb_result) (fuel : nat) (start : range) (s : sst) (m : ms) : stb_result :=
+  match fuel with
+  | O => OutOfFuel
+  | S f => stb_body_g alt (stb_loop_g alt f start) start s m
+  end.
+
+Definition search_tighten_g alt (fuel : nat) (s : sst) (m : ms) : outcome (bool * sst * ms) :=
+  stb_loop_g alt fuel (sbounds s m) s m.
+
+Fixpoint search_loop_g alt (fuel inner : nat) (s : sst) (m : ms) (rets : list bool)
+  : outcome (sst * ms * list bool) :=
+  match fuel with
+  | O => OutOfFuel
+  | S f => obind (search_tighten_g alt inner s m) (fun '(r, s', m') =>
+             if r then search_loop_g alt f inner s' m' (rets ++ [true]) else Done (s', m', rets ++ [false]))
+  end.
+
+Definition search_g alt (fuel : nat) (m : ms) (ids : list nat) (hints : list nat)
+  : outcome (option nat * range * list bool * ms) :=
+  obind (search_loop_g alt fuel fuel (mkS (Some ids) [] [] hints) m []) (fun '(s, m', rets) =>
     Done (best_match s m', sbounds s m', rets, m')).
 
 (* ------------------------------------------------------------------ correspondence *)
